@@ -11,6 +11,8 @@ package llrp
 //   rt <tree>         -> ok <hex> <tree-after-decode> <hex-after-reencode> | err | panic
 //   json <tree>       -> ok <tree-after-json-roundtrip> | err | panic
 //   tojson <tree>     -> ok <hex of the text json.Marshal produces, verbatim> | err | panic
+//   penc <n> <rounds> <tree>;<tree>;…        -> ok <distinct results per item, `|`-joined>;…   (concurrent marshal)
+//   pdec <n> <rounds> <cid> <hex>;<cid> <hex>;… -> ok <distinct results per item>;…               (concurrent unmarshal)
 //   selftest          -> ok <n containers> | bad <what cannot be instantiated / does not fit the table>
 // Every request runs under a watchdog ($VERIF_CODEC_WATCHDOG_MS, default 3000): on expiry the answer is
 // `hang`, all remaining requests are answered `skipped`, and the process exits (status 3).
@@ -32,6 +34,7 @@ import (
 	"sort"
 	"strconv"
 	"strings"
+	"sync"
 	"testing"
 	"time"
 )
@@ -919,7 +922,130 @@ func (r *vreg) handle(line string) (ans string) {
 		}
 		return "ok " + hex.EncodeToString(js)
 	}
+	if cmd == "penc" || cmd == "pdec" {
+		return r.parallel(cmd, rest)
+	}
 	return "bad unknown request " + cmd
+}
+
+// parallel: `penc <n> <rounds> <tree>;<tree>;…` marshals the batch of (different) values from n
+// goroutines at the same time, `rounds` times each, every goroutine walking the whole batch from its own
+// starting point; `pdec <n> <rounds> <cid> <hex>;<cid> <hex>;…` does the same with UnmarshalBinary (each
+// call into a fresh value). Answer: `ok r1;r2;…` with, per item, the DISTINCT results observed over all
+// goroutines and rounds joined by `|` (hex, `-` for an empty encoding / the tree, `err`, `panic`):
+// an encoder/decoder that is a function of its input yields exactly one result per item.
+func (r *vreg) parallel(cmd, rest string) string {
+	f := strings.SplitN(rest, " ", 3)
+	if len(f) != 3 {
+		return "bad " + cmd + " needs <n> <rounds> <items>"
+	}
+	n, err1 := strconv.Atoi(f[0])
+	rounds, err2 := strconv.Atoi(f[1])
+	if err1 != nil || err2 != nil || n < 1 || n > 64 || rounds < 1 {
+		return "bad " + cmd + " parameters"
+	}
+	items := strings.Split(f[2], ";")
+	type job struct {
+		c    *vcont
+		p    reflect.Value
+		data []byte
+	}
+	jobs := make([]job, len(items))
+	for i, it := range items {
+		it = strings.TrimSpace(it)
+		if cmd == "penc" {
+			c, p, err := r.fromTree(it)
+			if err != nil {
+				return "bad item " + strconv.Itoa(i) + ": " + err.Error()
+			}
+			jobs[i] = job{c: c, p: p}
+		} else {
+			w := strings.Fields(it)
+			if len(w) == 1 {
+				w = append(w, "")
+			}
+			if len(w) != 2 || r.byCid[w[0]] == nil || r.byCid[w[0]].T == nil {
+				return "bad item " + strconv.Itoa(i)
+			}
+			if w[1] == "-" {
+				w[1] = ""
+			}
+			data, err := hex.DecodeString(w[1])
+			if err != nil {
+				return "bad hex in item " + strconv.Itoa(i)
+			}
+			jobs[i] = job{c: r.byCid[w[0]], data: data}
+		}
+	}
+	one := func(j *job) (res string) {
+		defer func() {
+			if rec := recover(); rec != nil {
+				res = "panic"
+			}
+		}()
+		if cmd == "penc" {
+			b, err := vEncode(j.c, j.p)
+			if err != nil {
+				return "err"
+			}
+			if len(b) == 0 {
+				return "-"
+			}
+			return hex.EncodeToString(b)
+		}
+		q, err := r.vDecode(j.c, j.data)
+		if err != nil {
+			return "err"
+		}
+		tree, err := r.toTree(j.c, q)
+		if err != nil {
+			return "err"
+		}
+		return tree
+	}
+	seen := make([][]map[string]struct{}, n)
+	start := make(chan struct{})
+	var wg sync.WaitGroup
+	for g := 0; g < n; g++ {
+		seen[g] = make([]map[string]struct{}, len(jobs))
+		for i := range seen[g] {
+			seen[g][i] = map[string]struct{}{}
+		}
+		wg.Add(1)
+		go func(g int) {
+			defer wg.Done()
+			<-start
+			off := g * len(jobs) / n
+			for rd := 0; rd < rounds; rd++ {
+				for k := range jobs {
+					i := (k + off + rd) % len(jobs)
+					seen[g][i][one(&jobs[i])] = struct{}{}
+				}
+			}
+		}(g)
+	}
+	close(start)
+	wg.Wait()
+	var sb strings.Builder
+	sb.WriteString("ok ")
+	for i := range jobs {
+		if i > 0 {
+			sb.WriteByte(';')
+		}
+		all := map[string]struct{}{}
+		for g := 0; g < n; g++ {
+			for k := range seen[g][i] {
+				all[k] = struct{}{}
+			}
+		}
+		keys := make([]string, 0, len(all))
+		for k := range all {
+			keys = append(keys, k)
+		}
+		sort.Strings(keys)
+		sb.WriteString(strings.Join(keys, "|"))
+	}
+	return sb.String()
 }
 
 func TestVerifCodec(t *testing.T) {
